@@ -15,8 +15,14 @@ body is substituted for the call, mechanically, so that the caller's contract is
 A parameter of reference type whose argument is `&x` / `&mut x` (x an identifier) is substituted instead of bound
 (`*p` -> `x`, `p.` -> `x.`, other uses -> the argument text), because Verus does not accept `let p = &mut x`.
 
+Guard clauses of the helper are first put in structured form (`if C { A; return X; } REST` -> `if C { A; X } else { REST }`,
+a final `return X;` -> `X`), which needs no assumption about the call site.  Other early exits keep their meaning only in two positions, and are accepted only there: a helper with `return`
+/ `?` may be inlined where the call is in *return position* of the caller (`return f(..);` or the tail expression of the
+function body, not inside a closure); a helper with `?` (no `return`) may be inlined where the call is followed by `?`
+and both functions return the crate's `Result<_>` alias or `Result<_, E>` with the same `E` (the conversion is the identity).
+
 Anything that could change the meaning is refused (Unsupported -> the caller's contract is ASSUMED, as before this rule):
-`return` or `?` in the helper body (they would leave the caller), recursion, a helper of a different impl that mentions
+`return` or `?` in the helper body elsewhere (they would leave the caller), recursion, a helper of a different impl that mentions
 `Self`, generic parameters of the helper that the caller does not have under the same name, name capture (a free
 lower-case identifier of the helper body that is a local of the caller; an argument that mentions an earlier parameter).
 """
@@ -50,6 +56,27 @@ def owner_of(items, item):
     return None
 
 
+def _split_params(c, op):
+    """parameter ranges of a fn signature: commas at bracket depth 0 AND angle depth 0 (in a parameter list every `<` opens
+    generic arguments)"""
+    cl = c.close(op)
+    parts, start, j, ang = [], op + 1, op + 1, 0
+    while j < cl:
+        x = c.t(j)
+        if c.kind(j) == "p":
+            if x in OPEN:
+                j = c.close(j) + 1; continue
+            if x == "<": ang += 1
+            elif x == ">" and ang > 0: ang -= 1
+            elif x == ">>" and ang > 0: ang = max(0, ang - 2)
+            elif x == "," and ang == 0:
+                parts.append((start, j)); start = j + 1
+        j += 1
+    if start < cl:
+        parts.append((start, cl))
+    return parts
+
+
 def _sig_parts(text):
     """(is_async, generic names, self kind | None, [(mut?, name, type text)], body text)"""
     c = Code(text)
@@ -77,7 +104,7 @@ def _sig_parts(text):
     if c.t(j) != "(":
         raise Unsupported("inline: cannot read the helper's parameter list")
     self_kind, params = None, []
-    for a, b in split_args(c, j):
+    for a, b in _split_params(c, j):
         toks = [c.t(q) for q in range(a, b)]
         if "self" in toks[:3] and ":" not in toks[:3]:
             self_kind = "".join(toks)
@@ -97,6 +124,105 @@ def _sig_parts(text):
     if c.t(m) != "{":
         raise Unsupported("inline: helper without body")
     return is_async, gens, self_kind, params, text[c.pos(m):c.end(c.close(m))]
+
+
+def _ret_type(text):
+    c = Code(text)
+    k = c.find_seq(0, "fn")
+    j = k
+    while j < len(c) and c.t(j) != "(":
+        j += 1
+    j = c.close(j) + 1
+    if c.t(j) != "->":
+        return ""
+    m = j + 1
+    while m < len(c) and c.t(m) not in ("{", "where", ";"):
+        if c.t(m) in ("(", "["): m = c.close(m)
+        m += 1
+    return re.sub(r"\s+", "", c.slice(j + 1, m))
+
+
+def _same_error_type(caller_text, helper_text):
+    """both return the crate's `Result<T>` alias (one type argument), or `Result<_, E>` with textually the same E:
+    then `?` inside the helper converts the error exactly as `helper(..)?` in the caller did (identity)"""
+    def err(t):
+        t = re.sub(r"^(\w+::)*", "", t)
+        if not t.startswith("Result<") or not t.endswith(">"):
+            return None
+        inner, depth, parts, cur = t[7:-1], 0, [], ""
+        for ch in inner:
+            if ch in "<([": depth += 1
+            elif ch in ">)]": depth -= 1
+            if ch == "," and depth == 0:
+                parts.append(cur); cur = ""
+            else:
+                cur += ch
+        parts.append(cur)
+        return "<alias>" if len(parts) == 1 else parts[1]
+    a, b = err(_ret_type(caller_text)), err(_ret_type(helper_text))
+    return a is not None and a == b
+
+
+def eliminate_returns(body):
+    """`{ S..; if C { A..; return X; } R..; tail }`  ->  `{ S..; if C { A..; X } else { R..; tail } }` (repeatedly, and a final
+    `return X;` -> `X`): the structured form of a guard-clause helper.  Returns the body unchanged if any other `return`
+    would remain."""
+    from .raii import _block_statements
+    c = Code(body)
+    if not any(c.kind(q) == "id" and c.t(q) == "return" for q in range(len(c))):
+        return body
+
+    def conv(c, ob):
+        """text of the block opened at sig index ob with its top-level guard-clause returns eliminated, or None"""
+        cb = c.close(ob)
+        stmts = _block_statements(c, ob)
+        out = []
+        for i, (a, b) in enumerate(stmts):
+            txt = c.text[c.pos(a):(c.pos(b) if b < len(c) else len(c.text))]
+            has_ret = any(c.kind(q) == "id" and c.t(q) == "return" for q in range(a, min(b, cb)))
+            if not has_ret:
+                out.append(txt)
+                continue
+            if c.t(a) == "return":
+                # `return X;` as a top-level statement: the rest is dead code
+                e = a + 1
+                while e < b and c.t(e) != ";":
+                    if c.t(e) in OPEN: e = c.close(e)
+                    e += 1
+                out.append(c.slice(a + 1, e).strip())
+                return "{ " + "\n".join(out) + " }"
+            if c.t(a) == "if":
+                hb = a + 1
+                while c.t(hb) != "{":
+                    if c.t(hb) in ("(", "["): hb = c.close(hb)
+                    hb += 1
+                he = c.close(hb)
+                if c.t(he + 1) == "else":
+                    return None
+                inner = _block_statements(c, hb)
+                if not inner or c.t(inner[-1][0]) != "return":
+                    return None
+                la, lb = inner[-1]
+                if any(c.kind(q) == "id" and c.t(q) == "return" for q in range(hb, la)):
+                    return None
+                e = la + 1
+                while e < lb and c.t(e) != ";":
+                    if c.t(e) in OPEN: e = c.close(e)
+                    e += 1
+                val = c.slice(la + 1, e).strip()
+                head = c.text[c.pos(a):c.pos(la)]
+                # the rest of the block becomes the else branch
+                rest_open = "{ " + c.text[c.end(he):c.pos(cb)] + " }"
+                rest = eliminate_returns(rest_open)
+                rc = Code(rest)
+                if any(rc.kind(q) == "id" and rc.t(q) == "return" for q in range(len(rc))):
+                    return None
+                out.append("%s %s } else %s" % (head, val, rest))
+                return "{ " + "\n".join(out) + " }"
+            return None
+        return None
+    r = conv(c, 0)
+    return r if r is not None else body
 
 
 def _let_names(c, a, b):
@@ -161,12 +287,37 @@ def rule_inline(text, helpers, fns, caller_item, caller_owner, caller_generics, 
         if count[0] > 12:
             raise Unsupported("inline: too many expansions (recursion?)")
         is_async, gens, self_kind, params, body = _sig_parts(item.text)
+        body = eliminate_returns(body)
         bc = Code(body)
+        # where the call stands decides whether early exits of the helper keep their meaning once inlined
+        cl_ = c.close(op)
+        aft = cl_ + 1
+        if is_async and c.t(aft) == "." and c.t(aft + 1) == "await":
+            aft += 2
+        fb = c.find_seq(0, "fn")
+        while fb < len(c) and c.t(fb) != "{":
+            if c.t(fb) in ("(", "["): fb = c.close(fb)
+            fb += 1
+        in_closure = False
+        eo = c.enclosing_open(path_start)
+        while eo > fb:
+            if c.t(eo) == "{" and c.t(eo - 1) == "|":
+                in_closure = True
+            if c.t(eo) == "(" :
+                # an argument position: a closure without braces cannot be told apart here
+                a0 = eo + 1
+                if any(c.t(q) == "|" for q in range(a0, path_start)):
+                    in_closure = True
+            eo = c.enclosing_open(eo)
+        return_pos = (not in_closure) and (
+            (c.t(path_start - 1) == "return" and c.t(aft) in (";", "}"))
+            or (c.t(path_start - 1) in ("{", ";", "}") and c.t(aft) == "}" and c.close(aft) == fb))
+        try_pos = (not in_closure) and c.t(aft) == "?" and _same_error_type(caller_item.text, item.text)
         for q in range(len(bc)):
-            if bc.kind(q) == "id" and bc.t(q) == "return":
-                raise Unsupported("inline: `return` in helper %s" % name)
-            if bc.kind(q) == "p" and bc.t(q) == "?":
-                raise Unsupported("inline: `?` in helper %s" % name)
+            if bc.kind(q) == "id" and bc.t(q) == "return" and not return_pos:
+                raise Unsupported("inline: `return` in helper %s (call not in return position)" % name)
+            if bc.kind(q) == "p" and bc.t(q) == "?" and not (return_pos or try_pos):
+                raise Unsupported("inline: `?` in helper %s (call neither in return position nor followed by `?`)" % name)
             if bc.kind(q) == "id" and bc.t(q) == "Self" and owner is not caller_owner:
                 raise Unsupported("inline: helper %s of another impl mentions Self" % name)
             if bc.kind(q) == "id" and bc.t(q) in gens:
